@@ -57,6 +57,16 @@ def shuffle_alts(rng, text):
     return b"||".join(alts)
 
 
+def project(line):
+    """C09 observes acceptance, the Empty flags and the membership rows, not the printed or
+    internal form of the sets (DESIGN 4.2): a change of representation alone is not a divergence"""
+    if not line.startswith('("ok"'):
+        return line
+    r = parse_sx(line)
+    flags = [(x[0], x[1] if x[0] == b"ok" else None) for x in r[1:7]]
+    return repr((flags, r[7]))
+
+
 def gen_cases(ctx):
     rng = ctx.rng
     n = ctx.scale(9000, 450000)
@@ -194,7 +204,8 @@ def classify(ctx, tables, cases, impl_lines, model_lines, hits, parsed):
     """a hit is an instance of an open known finding when the model gives the same answer as Go on
     that case and the model's trace of the operation shows the recorded defect path"""
     open_ids = set(k["id"] for k in lib.load_known("C09") if k.get("status") == "open")
-    need = sorted(set(h.idx for h in hits if impl_lines[h.idx] == model_lines[h.idx]))
+    same = [project(a) == project(b) for a, b in zip(impl_lines, model_lines)]
+    need = sorted(set(h.idx for h in hits if same[h.idx]))
     # a permuted case is explained by the traces of both orders
     extra = set()
     for i in need:
@@ -204,11 +215,10 @@ def classify(ctx, tables, cases, impl_lines, model_lines, hits, parsed):
     need = sorted(set(need) | extra)
     diag = {}
     if need:
-        dcases = [{"sys": cases[i]["sys"], "head": [str(cases[i]["sys"]), sx(cases[i]["a"]), sx(cases[i]["b"])],
-                   "keys": set(cases[i]["keys"])} for i in need]
-        outs = ctable.run_model(ctx, tables, "setdiag", dcases)
+        sub = [cases[i] for i in need]
+        outs = model_on_go_sets(ctx, tables, sub, [impl_lines[i] for i in need], "setdiag_d")
         for i, line in zip(need, outs):
-            if line.startswith('("ok"'):
+            if line is not None and line.startswith('("ok"'):
                 r = parse_sx(line)
                 ev = {"u": set(e[0].decode() for e in r[1]) | set(e[0].decode() for e in r[3]),
                       "i": set(e[0].decode() for e in r[2]) | set(e[0].decode() for e in r[4])}
@@ -216,7 +226,7 @@ def classify(ctx, tables, cases, impl_lines, model_lines, hits, parsed):
     for h in hits:
         c = cases[h.idx]
         inp = {"system": NAMES[c["sys"]], "A": c["a"], "B": c["b"], "version": h.probe}
-        if impl_lines[h.idx] != model_lines[h.idx]:
+        if not same[h.idx]:
             ctx.violation(h.what, inp, h.observed, h.required)
             continue
         ev = set()
@@ -251,6 +261,31 @@ def check_known(ctx, tables):
             ctx.extra.setdefault("stale_known", []).append(k["id"])
 
 
+def model_on_go_sets(ctx, tables, cases, impl_lines, kind):
+    """C09 is about the two operations on GIVEN sets: the model is run on the sets A and B that Go
+    parsed (their dumps), so that a change in constraint parsing (C03's business) does not
+    disturb this check"""
+    idx, mcases = [], []
+    for i, (c, line) in enumerate(zip(cases, impl_lines)):
+        if not line.startswith('("ok"'):
+            continue
+        r = parse_sx(line)
+        da, db = r[1][3], r[2][3]
+        head = [str(c["sys"]), sx(da), sx(db)] if kind == "setop_d" else [sx(da), sx(db)]
+        if kind == "setop_d":
+            head.append(sx(c["probes"]))
+        idx.append(i)
+        mcases.append({"sys": c["sys"], "head": head, "keys": set((0, p) for p in c["probes"])})
+    if kind == "setdiag_d":
+        outs = ctx.model(kind, ["(" + " ".join(m["head"]) + ")" for m in mcases])
+    else:
+        outs = ctable.run_model(ctx, tables, kind, mcases)
+    res = [None] * len(cases)
+    for i, o in zip(idx, outs):
+        res[i] = o
+    return res
+
+
 def run(ctx):
     tables = ctable.Tables(ctx)
     # tokens: direct tie of Token.v
@@ -263,11 +298,14 @@ def run(ctx):
 
     cases = gen_cases(ctx)
     impl_lines = ctx.impl("setop", ctable.impl_args(cases))
-    model_lines = ctable.run_model(ctx, tables, "setop", cases)
+    model_lines = model_on_go_sets(ctx, tables, cases, impl_lines, "setop_d")
     ctx.count("corr:setop", len(cases))
     nd = 0
-    for c, i, m in zip(cases, impl_lines, model_lines):
-        if i != m:
+    for k, (c, i, m) in enumerate(zip(cases, impl_lines, model_lines)):
+        if m is None:
+            model_lines[k] = i          # rejected by Go: nothing for this property to compare
+            continue
+        if i != m and project(i) != project(m):
             if '"oom"' in m:
                 ctx.skipped_oom += 1
                 continue
